@@ -41,6 +41,8 @@ import (
 	"sort"
 	"strings"
 	"sync"
+	"sync/atomic"
+	"time"
 
 	"github.com/blinklabs-io/gouroboros/ledger/common"
 	"verif/space"
@@ -439,6 +441,26 @@ func main() {
 			}
 		}
 	}
+	// interleave the eras (a soft deadline then never starves a whole era)
+	{
+		per := map[int][]job{}
+		for _, j := range jobs {
+			per[j.c.era] = append(per[j.c.era], j)
+		}
+		jobs = jobs[:0]
+		for i := 0; ; i++ {
+			any := false
+			for _, era := range eras {
+				if i < len(per[era]) {
+					jobs = append(jobs, per[era][i])
+					any = true
+				}
+			}
+			if !any {
+				break
+			}
+		}
+	}
 	envs := map[int]*EraEnv{}
 	srs := map[int]sigRules{}
 	for _, era := range eras {
@@ -455,7 +477,14 @@ func main() {
 	var pending []pendingV
 	outcomes := map[string]int64{}
 	keyCases := map[string]int64{}
+	// soft deadline (safety net for an oversubscribed machine): jobs that would start after it are skipped and counted
+	deadline := c.Deadline(170*time.Second, 560*time.Second)
+	var skipped int64
 	vlib.Parallel(len(jobs), func(ji int) {
+		if time.Now().After(deadline) {
+			atomic.AddInt64(&skipped, 1)
+			return
+		}
 		j := jobs[ji]
 		p := w.prepare(j.c)
 		env, sr := envs[j.c.era], srs[j.c.era]
@@ -539,6 +568,9 @@ func main() {
 			_, acc, errs, txb := p.observe(envs[EraConway], srs[EraConway], ws)
 			c.Sample(map[string]any{"context": p.c.String(), "witnesses": witSetStr(ws), "first_violated_condition": p.conditions(ws), "accepted": acc, "errors": errs, "tx_cbor": vlib.Hex(txb)})
 		}
+	}
+	if skipped > 0 {
+		c.NotExhaustive(fmt.Sprintf("soft deadline reached: %d of %d contexts were not run", skipped, len(jobs)))
 	}
 	c.Set("rule", fmt.Sprintf("eras Shelley..Dijkstra x every non-empty input subset of {k0-UTxO, k1-UTxO, script-locked UTxO, Byron UTxO of kb} x (Alonzo+) collateral {none,k0,k2,script-locked} x required signers {{}, {k0}, {k2}, {k1,k2}} x bootstrap witness {none, valid, other body, wrong chain code, bit flip} x every vkey-witness subset of size <= %d out of 12 candidates (V/B/W/F per key); thorough adds the full 4096-subset power set on a 24-context Conway grid; real decoder, all rules of the era run, only the signature family (by rule identity) is read; distinct = context; oracle = the five conditions of the property, both directions", maxW))
 	c.Assume("ed25519 (crypto/ed25519), blake2b, sha3-256, crc32 trusted; key seeds, chain code, txids are representatives derived from VERIF_SEED")
